@@ -216,6 +216,27 @@ fn one_case(run: &Run, case: u64) {
             want_plain = want;
         }
     }
+    // the same comparison with an exclusion: the differences that remain are those of the paths
+    // the exclusion keeps (a path is excluded if it or a directory above it matches)
+    if let Some((p0, _)) = want_plain.first() {
+        let base = p0.rsplit('/').next().unwrap().to_string();
+        if !base.is_empty() && !base.contains(['[', ']', '{', '}', '*', '?', '\\', '!']) {
+            let excl = vec![base];
+            let gm = crate::oracle::GlobModel::new(&excl);
+            let want: Vec<(String, char)> = want_plain.iter().filter(|(p, _)| !gm.excluded(p)).cloned().collect();
+            let d = cs::diff(cs::local(&arch), Some(0), &src, false, &excl);
+            run.count("diffs_compared", 1);
+            run.count("diffs_with_an_exclusion_compared", 1);
+            if d.value() != Some(&want) {
+                run.violation(
+                    "diff-with-exclusion-differs-from-real-differences",
+                    format!("after {descs:?}, exclude {excl:?}: real differences among the kept paths {want:?}, reported {}", d.value().map(|v| format!("{v:?}")).unwrap_or_else(|| d.describe())),
+                    replay,
+                );
+                return;
+            }
+        }
+    }
     for (_, c) in &want_plain {
         run.count(&format!("real_changes_{}", match c { '+' => "added", '-' => "deleted", _ => "changed" }), 1);
     }
@@ -308,7 +329,7 @@ pub fn run(tier: Tier, replay: Option<Value>) -> i32 {
         run.par_cases(tier.pick(2500, 250000), super::threads(), |c| one_case(&run, c));
     }
     run.finish(
-        "generated trees S0 backed up with default options; diff(version, S0) must be empty (and all-unchanged with include_unchanged); then 1-6 mutations (content with new mtime or size, mtime only, chmod, chown as root, file<->dir swaps, add/remove/rename of files, dirs and symlinks, retargeted links) give S1 and diff(version, S1) must equal, in apath order and with the right sigil, the classification computed from the two lstat snapshots (added / deleted / changed iff kind, owner, mode, file size or mtime, or link target differ; owners compare by name, an id without a name being 'no name': trees and chown mutations include owners of which only the user or only the group has a name); the next backup's change callback, restricted to files, must name the same added, changed and deleted sets. Also one version of 10 040 files with one entry per hunk, diffed against its own tree and after changes on both sides of the index-subdirectory boundary. Non-trivial = >= 2 real differences; distinct by the difference list.",
+        "generated trees S0 backed up with default options; diff(version, S0) must be empty (and all-unchanged with include_unchanged); then 1-6 mutations (content with new mtime or size, mtime only, chmod, chown as root, file<->dir swaps, add/remove/rename of files, dirs and symlinks, retargeted links) give S1 and diff(version, S1) must equal, in apath order and with the right sigil, the classification computed from the two lstat snapshots (added / deleted / changed iff kind, owner, mode, file size or mtime, or link target differ; owners compare by name, an id without a name being 'no name': trees and chown mutations include owners of which only the user or only the group has a name); the same diff with one exclusion (the name of the first changed path) must report the differences of the kept paths; the next backup's change callback, restricted to files, must name the same added, changed and deleted sets. Also one version of 10 040 files with one entry per hunk, diffed against its own tree and after changes on both sides of the index-subdirectory boundary. Non-trivial = >= 2 real differences; distinct by the difference list.",
         &["directory and symlink mtimes are not significant (as in the statement)"],
         None,
         &[("diffs_compared", 100), ("real_changes_added", 10), ("real_changes_deleted", 10), ("real_changes_changed", 10), ("callback_sets_compared", 50), ("diffs_of_versions_with_more_than_10000_hunks", 2)],
